@@ -52,6 +52,12 @@ var srcTargets = []srcTarget{
 	{Group: "Revocation", Recv: "AccountClaims", Name: "IsClaimRevoked", Only: "V2"},
 	{Group: "Revocation", Recv: "Export", Name: "isRevoked", Only: "V2"},
 	{Group: "Revocation", Recv: "Export", Name: "IsClaimRevoked", Only: "V2"},
+	{Group: "Revocation", Recv: "AccountClaims", Name: "RevokeAt", Only: "V2"},
+	{Group: "Revocation", Recv: "AccountClaims", Name: "Revoke", Only: "V2"},
+	{Group: "Revocation", Recv: "AccountClaims", Name: "ClearRevocation", Only: "V2"},
+	{Group: "Revocation", Recv: "Export", Name: "RevokeAt", Only: "V2"},
+	{Group: "Revocation", Recv: "Export", Name: "Revoke", Only: "V2"},
+	{Group: "Revocation", Recv: "Export", Name: "ClearRevocation", Only: "V2"},
 	{Group: "Validate", Recv: "ClaimsData", Name: "Validate"},
 	{Group: "Validate", Recv: "Subject", Name: "Validate"},
 	{Group: "Validate", Recv: "Subject", Name: "HasWildCards", Only: "V2"},
@@ -165,7 +171,17 @@ var srcTargets = []srcTarget{
 	{Group: "DidSign", Recv: "AccountClaims", Name: "DidSign", Only: "V2"},
 	{Group: "DidSign", Recv: "UserClaims", Name: "HasEmptyPermissions", Only: "V2"},
 	{Group: "DidSign", Recv: "UserScope", Name: "ValidateScopedSigner", Only: "V2"},
+	{Group: "DidSign", Name: "IssueUserJWT", Only: "V2"},
+	{Group: "DidSign", Recv: "SigningKeys", Name: "Keys", Only: "V2"},
+	{Group: "DidSign", Recv: "SigningKeys", Name: "Contains", Only: "V2"},
+	{Group: "DidSign", Recv: "SigningKeys", Name: "GetScope", Only: "V2"},
 }
+
+// translated methods that store into data fields of their abstract receiver: the fields (relative to the receiver, with
+// their Coq types), in the order their new values are handed back
+type stateField struct{ rel, ty string }
+
+var stateful = map[types.Object][]stateField{}
 
 type untr struct{ msg string }
 
@@ -212,15 +228,18 @@ type tr struct {
 	vr         types.Object            // a *ValidationResults parameter: the list of issues so far, returned extended
 	returnsVr  map[types.Object]bool   // translated functions that take and return the issue list
 	localVR    map[types.Object]bool   // local variables holding validation results of their own (tvr := CreateValidationResults())
-	globalUse  map[string]string       // callee observation handed on as a global -> the abstract values the callee was called with
-	freshLocal map[types.Object]bool   // local variables holding an opaque value just made by a function of an imported package (h := sha256.New())
-	myAbs      []absParam              // this function's observations of its own receiver
-	paramRoot  map[string]int          // abstract parameters: name -> position
-	effects    bool                    // the body assigns fields of abstract values or calls their methods for effect
-	logVar     *types.Var              // ... then this pseudo-variable holds the log of those effects
-	setFields  map[string]bool         // observation names of fields assigned so far
-	foreignObs bool                    // it also observes an abstract parameter
-	dropNil    bool                    // the function's only result is an error that is nil on every path: dropped
+	stateVar   map[string]*types.Var   // fields of the abstract receiver that the body stores into, held as data (maps, lists, texts, numbers): path name -> variable carrying the current value
+	stateOrder []string
+	stateFirst map[string]token.Pos  // where the body first stores into each of them
+	globalUse  map[string]string     // callee observation handed on as a global -> the abstract values the callee was called with
+	freshLocal map[types.Object]bool // local variables holding an opaque value just made by a function of an imported package (h := sha256.New())
+	myAbs      []absParam            // this function's observations of its own receiver
+	paramRoot  map[string]int        // abstract parameters: name -> position
+	effects    bool                  // the body assigns fields of abstract values or calls their methods for effect
+	logVar     *types.Var            // ... then this pseudo-variable holds the log of those effects
+	setFields  map[string]bool       // observation names of fields assigned so far
+	foreignObs bool                  // it also observes an abstract parameter
+	dropNil    bool                  // the function's only result is an error that is nil on every path: dropped
 }
 
 func (t *tr) fail(n ast.Node, f string, a ...interface{}) {
@@ -499,6 +518,14 @@ func (t *tr) expr(e ast.Expr) string {
 		if isAbstractType(t.info.TypeOf(x)) && len(x.Elts) == 0 {
 			return "go_nil" // the zero value of an opaque struct
 		}
+		if len(x.Elts) == 0 {
+			switch t.info.TypeOf(x).Underlying().(type) {
+			case *types.Map, *types.Slice:
+				if strings.HasPrefix(t.coqType(x, t.info.TypeOf(x)), "(list ") {
+					return "[]" // an empty map / list
+				}
+			}
+		}
 		if sl, isSlice := t.info.TypeOf(x).Underlying().(*types.Slice); isSlice {
 			t.coqType(x, t.info.TypeOf(x))
 			if len(x.Elts) == 0 {
@@ -555,6 +582,10 @@ func (t *tr) expr(e ast.Expr) string {
 				if id, ok := pair[1].(*ast.Ident); ok {
 					if _, isNil := t.info.Uses[id].(*types.Nil); isNil {
 						if name, ok := t.absPath(pair[0]); ok {
+							if v := t.stateVar[name]; v != nil && t.stateFirst[name].IsValid() && x.Pos() > t.stateFirst[name] {
+								// (whether the field is nil is known of its value on entry only)
+								t.fail(x, "nil test of %s after a store into it", name)
+							}
 							r := t.observe(name+"_isnil", "bool")
 							if x.Op == token.NEQ {
 								return "(negb " + r + ")"
@@ -820,6 +851,25 @@ func isTimeNow(t *tr, e ast.Expr) bool {
 	}
 	pn, ok := t.info.Uses[id].(*types.PkgName)
 	return ok && pn.Imported().Path() == "time"
+}
+
+// timeNowAdd: time.Now().Add(d), possibly followed by UTC()
+func timeNowAdd(t *tr, e ast.Expr) (ast.Expr, bool) {
+	c, ok := e.(*ast.CallExpr)
+	if !ok {
+		return nil, false
+	}
+	f, ok := c.Fun.(*ast.SelectorExpr)
+	if !ok {
+		return nil, false
+	}
+	if f.Sel.Name == "UTC" && len(c.Args) == 0 {
+		return timeNowAdd(t, f.X)
+	}
+	if f.Sel.Name == "Add" && len(c.Args) == 1 && isTimeNow(t, f.X) {
+		return c.Args[0], true
+	}
+	return nil, false
 }
 
 // knownArgs: the arguments of a call of a translated function: its observations (of the world, of the receiver it is
@@ -1274,6 +1324,10 @@ func (t *tr) call(x *ast.CallExpr) string {
 		if f.Sel.Name == "Unix" && len(x.Args) == 0 && isTimeNow(t, f.X) {
 			return t.observe("go_now", "Z") // the clock: one more thing the function observes
 		}
+		if d, ok := timeNowAdd(t, f.X); ok && f.Sel.Name == "Unix" && len(x.Args) == 0 {
+			// time.Now().Add(d).UTC().Unix(): the clock read and moved by d, in whole seconds - an unknown function of d
+			return "(" + t.observe("go_now_add", "(Z -> Z)") + " " + t.expr(d) + ")"
+		}
 		if f.Sel.Name == "Unix" && len(x.Args) == 0 && t.isTime(f.X) {
 			return t.expr(f.X)
 		}
@@ -1421,6 +1475,13 @@ func (t *tr) assigned(n ast.Node) []*types.Var {
 		switch s := m.(type) {
 		case *ast.AssignStmt:
 			for _, l := range s.Lhs {
+				if v, ok := t.stateOf(l); ok {
+					if !seen[v] {
+						seen[v] = true
+						out = append(out, v)
+					}
+					continue
+				}
 				if root, _, _, ok := t.freshStore(l); ok {
 					if v, isVar := root.(*types.Var); isVar && !seen[v] {
 						seen[v] = true
@@ -1444,7 +1505,24 @@ func (t *tr) assigned(n ast.Node) []*types.Var {
 				}
 				if f, ok := c.Fun.(*ast.SelectorExpr); ok {
 					if sel, ok := t.info.Selections[f]; ok && t.mutates[sel.Obj()] {
-						add(t.unconv(f.X))
+						if v, ok := t.stateOf(f.X); ok {
+							if !seen[v] {
+								seen[v] = true
+								out = append(out, v)
+							}
+						} else {
+							add(t.unconv(f.X))
+						}
+					}
+					if sel, ok := t.info.Selections[f]; ok && stateful[sel.Obj()] != nil {
+						if prefix, isAbs := t.absPath(f.X); isAbs {
+							for _, sf := range stateful[sel.Obj()] {
+								if v := t.stateVar[prefix+sf.rel]; v != nil && !seen[v] {
+									seen[v] = true
+									out = append(out, v)
+								}
+							}
+						}
 					}
 					if id, ok := f.X.(*ast.Ident); ok && t.isVRObj(t.info.Uses[id]) {
 						add(f.X) // vr.AddError(...)
@@ -1663,6 +1741,13 @@ func (t *tr) block0(stmts []ast.Stmt, c sctx, ind string) string {
 		}
 		return out + t.block(rest, c, ind)
 	case *ast.AssignStmt:
+		// a.F = e for a data field of the receiver that is carried as a variable
+		if len(x.Lhs) == 1 && len(x.Rhs) == 1 && x.Tok == token.ASSIGN {
+			if v, ok := t.stateOf(x.Lhs[0]); ok {
+				val := t.expr(x.Rhs[0])
+				return "let " + t.names[v] + " := " + val + " in" + nl + t.block(rest, c, ind)
+			}
+		}
 		// x := T{} for an opaque struct: x is a fresh value of its own too (stores into it rebind it)
 		if len(x.Lhs) == 1 && len(x.Rhs) == 1 && x.Tok == token.DEFINE {
 			if lit, ok := x.Rhs[0].(*ast.CompositeLit); ok && isAbstractType(t.info.TypeOf(lit)) && len(lit.Elts) == 0 {
@@ -1705,6 +1790,21 @@ func (t *tr) block0(stmts []ast.Stmt, c sctx, ind string) string {
 					if pid, ok := f.X.(*ast.Ident); ok {
 						if _, isPkg := t.info.Uses[pid].(*types.PkgName); isPkg {
 							if lid, ok := x.Lhs[0].(*ast.Ident); ok && lid.Name != "_" && t.info.Defs[lid] != nil && isAbstractType(t.info.Defs[lid].Type()) {
+								if t.freshLocal == nil {
+									t.freshLocal = map[types.Object]bool{}
+								}
+								t.freshLocal[t.info.Defs[lid]] = true
+							}
+						}
+					}
+				}
+				// x := NewT(...) - an untranslated function of this package handing back a pointer to a struct: within this
+				// function the value is reachable through x only, so stores into it and methods called on it for effect
+				// rebind x
+				if fid, ok := call.Fun.(*ast.Ident); ok {
+					if fo, ok := t.info.Uses[fid].(*types.Func); ok && t.known[fo] == "" {
+						if lid, ok := x.Lhs[0].(*ast.Ident); ok && lid.Name != "_" && t.info.Defs[lid] != nil && isAbstractType(t.info.Defs[lid].Type()) {
+							if _, isPtr := t.info.Defs[lid].Type().(*types.Pointer); isPtr {
 								if t.freshLocal == nil {
 									t.freshLocal = map[types.Object]bool{}
 								}
@@ -2080,6 +2180,28 @@ func (t *tr) block0(stmts []ast.Stmt, c sctx, ind string) string {
 				}
 			}
 			if f, ok := call.Fun.(*ast.SelectorExpr); ok {
+				if sel, ok := t.info.Selections[f]; ok && stateful[sel.Obj()] != nil && t.known[sel.Obj()] != "" {
+					if prefix, isAbs := t.absPath(f.X); isAbs && !strings.HasPrefix(prefix, "\x00") {
+						// a translated method that stores into data fields of the value it is called on: their new values come back
+						var names []string
+						for _, sf := range stateful[sel.Obj()] {
+							v := t.stateVar[prefix+sf.rel]
+							if v == nil {
+								t.fail(x, "call of %s, which stores into %s, not carried as a variable here", f.Sel.Name, prefix+sf.rel)
+							}
+							names = append(names, t.names[v])
+						}
+						pat := names[0]
+						if len(names) > 1 {
+							pat = "'(" + strings.Join(names, ", ") + ")"
+						}
+						app := "(" + t.known[sel.Obj()] + " " + valArgs(sel.Obj()) + strings.Join(t.knownArgs(call, sel.Obj(), prefix), " ") + ")"
+						if sel.Obj().(*types.Func).Type().(*types.Signature).Results().Len() > 0 {
+							app = "(fst " + app + ")"
+						}
+						return "let " + pat + " := " + app + " in" + nl + t.block(rest, c, ind)
+					}
+				}
 				if sel, ok := t.info.Selections[f]; ok && t.mutates[sel.Obj()] {
 					// a method that updates its receiver, called on our own receiver or a local: rebind it
 					recvName := t.lhsRef(f.X)
@@ -2389,6 +2511,48 @@ func (t *tr) pkgChain(e ast.Expr) (string, bool) {
 	return "", false
 }
 
+// dataField: e is a field path of the function's own abstract receiver whose type is translated as data (a map of
+// strings to integers, a list of strings, a text, a number): its observation name and Coq type
+func (t *tr) dataField(e ast.Expr) (string, string, bool) {
+	sel, ok := e.(*ast.SelectorExpr)
+	if !ok || t.recv == nil || t.roots[t.recv] == "" {
+		return "", "", false
+	}
+	p, ok := t.absPath(sel)
+	if !ok || strings.HasPrefix(p, "\x00") || !strings.HasPrefix(p, t.roots[t.recv]+"_") {
+		return "", "", false
+	}
+	if isAbstractType(t.info.TypeOf(sel)) {
+		return "", "", false
+	}
+	var ty string
+	func() {
+		defer func() {
+			if r := recover(); r != nil {
+				if _, isU := r.(untr); !isU {
+					panic(r)
+				}
+				ok = false
+			}
+		}()
+		ty = t.coqType(sel, t.info.TypeOf(sel))
+	}()
+	if !ok || ty == "go_val" || !(strings.HasPrefix(ty, "(list ") || ty == "string" || ty == "Z" || ty == "bool") {
+		return "", "", false
+	}
+	return p, ty, true
+}
+
+// stateOf: the variable carrying the current value of a data field the body stores into
+func (t *tr) stateOf(e ast.Expr) (*types.Var, bool) {
+	p, _, ok := t.dataField(e)
+	if !ok {
+		return nil, false
+	}
+	v, ok := t.stateVar[p]
+	return v, ok
+}
+
 // freshStore: e is a field path (optionally indexed) of a fresh opaque local: the local, the path, the index
 func (t *tr) freshStore(e ast.Expr) (types.Object, string, ast.Expr, bool) {
 	var key ast.Expr
@@ -2454,6 +2618,9 @@ func (t *tr) unconv(e ast.Expr) ast.Expr {
 // lhsRef: the receiver (or a local) whose updated value a mutating method call rebinds
 func (t *tr) lhsRef(e ast.Expr) string {
 	e = t.unconv(e)
+	if v, ok := t.stateOf(e); ok {
+		return t.names[v]
+	}
 	if id, ok := e.(*ast.Ident); ok {
 		if n, ok := t.names[t.info.Uses[id]]; ok && n != "" {
 			if t.info.Uses[id] == t.recv {
@@ -2561,11 +2728,76 @@ func translateFunc(pkg *packages.Package, fd *ast.FuncDecl, coqName string, know
 			params = append(params, "("+t.bind(o)+" : "+t.coqType(f, o.Type())+")") // (a variadic parameter already has its slice type)
 		}
 	}
+	// data fields of the receiver that the body stores into, or updates through a translated method that updates its
+	// receiver (a.Revocations = RevocationList{}; a.Revocations.Revoke(k, ts)): each is carried as a variable that starts
+	// as the field's value on entry and is handed back with the result
+	t.stateVar, t.stateFirst = map[string]*types.Var{}, map[string]token.Pos{}
+	if recvName == "" && t.recv != nil && t.roots[t.recv] != "" {
+		note := func(e ast.Expr) {
+			if p, ty, ok := t.dataField(e); ok && (strings.HasPrefix(ty, "(list ")) {
+				if t.stateVar == nil {
+					t.stateVar = map[string]*types.Var{}
+					t.stateFirst = map[string]token.Pos{}
+				}
+				if !t.stateFirst[p].IsValid() || e.Pos() < t.stateFirst[p] {
+					t.stateFirst[p] = e.Pos()
+				}
+				if t.stateVar[p] == nil {
+					t.observe(p, ty) // (the value on entry is a parameter)
+					v := types.NewVar(token.NoPos, nil, p, t.info.TypeOf(e))
+					t.stateVar[p] = v
+					t.names[v] = p
+					t.stateOrder = append(t.stateOrder, p)
+				}
+			}
+		}
+		ast.Inspect(fd.Body, func(m ast.Node) bool {
+			switch st := m.(type) {
+			case *ast.AssignStmt:
+				if st.Tok == token.ASSIGN {
+					for _, l := range st.Lhs {
+						note(l)
+					}
+				}
+			case *ast.ExprStmt:
+				if c, ok := st.X.(*ast.CallExpr); ok {
+					if f, ok := c.Fun.(*ast.SelectorExpr); ok {
+						if sel, ok := t.info.Selections[f]; ok && t.mutates[sel.Obj()] {
+							note(f.X)
+						}
+						if sel, ok := t.info.Selections[f]; ok && stateful[sel.Obj()] != nil {
+							// a translated method that stores into data fields of the same receiver: they are ours too
+							if prefix, isAbs := t.absPath(f.X); isAbs && !strings.HasPrefix(prefix, "\x00") {
+								for _, sf := range stateful[sel.Obj()] {
+									p := prefix + sf.rel
+									if t.stateVar == nil {
+										t.stateVar = map[string]*types.Var{}
+									}
+									if t.stateVar[p] == nil {
+										t.observe(p, sf.ty)
+										v := types.NewVar(token.NoPos, nil, p, types.Typ[types.Invalid])
+										t.stateVar[p] = v
+										t.names[v] = p
+										t.stateOrder = append(t.stateOrder, p)
+									}
+								}
+							}
+						}
+					}
+				}
+			}
+			return true
+		})
+		sort.Strings(t.stateOrder)
+	}
 	// does the body assign fields of, or call for effect methods of, abstract values?
 	ast.Inspect(fd.Body, func(m ast.Node) bool {
 		switch st := m.(type) {
 		case *ast.AssignStmt:
 			for _, l := range st.Lhs {
+				if _, isState := t.stateOf(l); isState {
+					continue
+				}
 				if t.isEffectTarget(l) {
 					t.effects = true
 				}
@@ -2630,6 +2862,27 @@ func translateFunc(pkg *packages.Package, fd *ast.FuncDecl, coqName string, know
 		} else {
 			t.retTy = "(" + rty + " * " + t.resTy + ")"
 			t.wrap = func(v string) string { return "(" + recvName + ", " + v + ")" }
+		}
+	}
+	if len(t.stateOrder) > 0 {
+		if t.mut || t.vr != nil || t.effects {
+			t.fail(fd, "stores into data fields of the receiver together with an updated value receiver, validation results or effects on abstract values")
+		}
+		var tys []string
+		for _, n := range t.stateOrder {
+			tys = append(tys, t.fieldTy[n])
+		}
+		st, stTy := t.stateOrder[0], tys[0]
+		if len(t.stateOrder) > 1 {
+			st, stTy = "("+strings.Join(t.stateOrder, ", ")+")", "("+strings.Join(tys, " * ")+")"
+		}
+		if t.resTy == "unit" {
+			t.retTy = stTy
+			t.wrap = func(v string) string { return st }
+			fall = st
+		} else {
+			t.retTy = "(" + stTy + " * " + t.resTy + ")"
+			t.wrap = func(v string) string { return "(" + st + ", " + v + ")" }
 		}
 	}
 	if t.vr != nil && t.resTy == "(option string)" {
@@ -2723,6 +2976,14 @@ func translateFunc(pkg *packages.Package, fd *ast.FuncDecl, coqName string, know
 	text = fmt.Sprintf("Definition %s %s : %s :=\n  %s.\n", coqName, strings.Join(params, " "), t.retTy, body)
 	if t.effects {
 		effectful[pkg.TypesInfo.Defs[fd.Name]] = true
+	}
+	if len(t.stateOrder) > 0 {
+		var sf []stateField
+		root := t.roots[t.recv]
+		for _, n := range t.stateOrder {
+			sf = append(sf, stateField{strings.TrimPrefix(n, root), t.fieldTy[n]})
+		}
+		stateful[pkg.TypesInfo.Defs[fd.Name]] = sf
 	}
 	// what the function consults: the names of its observations of the world (untranslated functions of this and of
 	// imported packages, the clock) - so that a theorem can pin them (json.Marshal replaced by another function changes
